@@ -326,6 +326,15 @@ type c14Case struct {
 	// Repeat > 1: the same exchange is repeated sequentially on the connection
 	// (header compression state, connection windows carry over)
 	Repeat int `json:"sequential_requests,omitempty"`
+	// Seq non-empty: a history of len(Seq) sequential exchanges on the one
+	// connection, exchange i with a request body of Seq[i].Req and a response
+	// body of Seq[i].Res bytes (instead of Repeat x ReqBody/ResBody); everything
+	// else is the same in each exchange
+	Seq []c14Lens `json:"body_len_sequence,omitempty"`
+	// ResRead > 0: the client reads the response body with Read calls on a
+	// buffer of that many bytes (0: io.ReadAll, whose buffer starts at 512
+	// bytes and grows), i.e. how much one Read call may take at once
+	ResRead int `json:"res_read_buf,omitempty"`
 	// ReqPad/ResPad > 0: an extra field X-Pad of that many 0xFE bytes (never
 	// Huffman-coded, so the header block grows by one byte per byte)
 	ReqPad int `json:"req_pad_field,omitempty"`
@@ -337,6 +346,22 @@ type c14Case struct {
 	ResTrlPad int `json:"res_trailer_pad_field,omitempty"`
 	// network deviations
 	Short []c14Short `json:"short_reads,omitempty"`
+}
+
+// c14Lens are the body lengths of one exchange of a history.
+type c14Lens struct {
+	Req int `json:"req"`
+	Res int `json:"res"`
+}
+
+// c14At returns the case as exchange i of its history sees it.
+func c14At(x *c14Case, i int) *c14Case {
+	if len(x.Seq) == 0 {
+		return x
+	}
+	y := *x
+	y.ReqBody, y.ResBody = x.Seq[i].Req, x.Seq[i].Res
+	return &y
 }
 
 var c14Paths = []string{"/", "/p/a%20b/c?q=1&r=%2F&s=", "/" + strings.Repeat("seg/", 80) + "end?x=" + strings.Repeat("y", 200)}
@@ -465,6 +490,16 @@ func c14Invalid(x *c14Case) string {
 	if x.Order == 1 && x.Method == "HEAD" {
 		return "a HEAD response is complete once its header block is flushed; the server then aborts the rest of the request (RFC 9113 8.1), so such handlers read the request first"
 	}
+	for i := range x.Seq {
+		if i == 0 && x.Repeat > 1 {
+			return "a history is given either by Repeat or by Seq"
+		}
+		y := *c14At(x, i)
+		y.Seq = nil
+		if why := c14Invalid(&y); why != "" {
+			return why
+		}
+	}
 	if x.Order == 1 && x.Status > 299 {
 		return "the Transport stops sending the request body on a status > 299 (documented heuristic); such handlers read the request first"
 	}
@@ -487,7 +522,11 @@ type c14Seen struct {
 	trailer    http.Header
 	preTrailer []string // keys announced before the body was read
 	writeErr   error
-	conn       int  // index of the connection the request arrived on (shutdown part)
+	conn       int // index of the connection the request arrived on (shutdown part)
+	// set by record: the response body of this invocation, if it is not the
+	// handler's fixed one (histories with per-exchange body lengths)
+	resBody    []byte
+	resBodySet bool
 	readDone   bool // the handler's read of the request body has returned
 }
 
@@ -654,6 +693,10 @@ func c14Handler(x *c14Case, resHdr, resTrl http.Header, resBody []byte, record f
 		seen.method, seen.uri, seen.host, seen.proto = r.Method, r.RequestURI, r.Host, r.Proto
 		seen.header = r.Header.Clone()
 		seen.cl = r.ContentLength
+		resBody := resBody
+		if seen.resBodySet {
+			resBody = seen.resBody
+		}
 		for k := range r.Trailer {
 			seen.preTrailer = append(seen.preTrailer, k)
 		}
@@ -749,12 +792,23 @@ func c14Exchange(vw *vx.W, x *c14Case) (st c14Stats, completed bool) {
 	logw := c14LockedWriter{&logMu, &logBuf}
 
 	reps := max(1, x.Repeat)
+	if len(x.Seq) > 0 {
+		reps = len(x.Seq)
+	}
 	reqHdr := c14HeaderSet(x.ReqHdr, "q")
 	reqTrl := c14Trailers(x.ReqTrl, x.ReqTrlPad, "q")
-	reqBody := c14Body(x.ReqBody, 1)
 	resHdr := c14HeaderSet(x.ResHdr, "s")
 	resTrl := c14Trailers(x.ResTrl, x.ResTrlPad, "s")
-	resBody := c14Body(x.ResBody, 2)
+	// bodies of exchange i (the seed varies with i so that bytes of one
+	// exchange turning up in another are noticed)
+	reqBodies, resBodies := make([][]byte, reps), make([][]byte, reps)
+	for i := range reqBodies {
+		xi, k := c14At(x, i), 0
+		if len(x.Seq) > 0 {
+			k = 2 * i
+		}
+		reqBodies[i], resBodies[i] = c14Body(xi.ReqBody, 1+k), c14Body(xi.ResBody, 2+k)
+	}
 	if x.ReqPad > 0 {
 		reqHdr["X-Pad"] = []string{strings.Repeat("\xfe", x.ReqPad)}
 	}
@@ -765,8 +819,11 @@ func c14Exchange(vw *vx.W, x *c14Case) (st c14Stats, completed bool) {
 	// ---- server
 	var seenMu sync.Mutex
 	var seenAll []*c14Seen
-	handler := c14Handler(x, resHdr, resTrl, resBody, func(seen *c14Seen) {
+	handler := c14Handler(x, resHdr, resTrl, resBodies[0], func(seen *c14Seen) {
 		seenMu.Lock()
+		if i := len(seenAll); i < reps {
+			seen.resBody, seen.resBodySet = resBodies[i], true
+		}
 		seenAll = append(seenAll, seen)
 		seenMu.Unlock()
 	})
@@ -822,7 +879,7 @@ func c14Exchange(vw *vx.W, x *c14Case) (st c14Stats, completed bool) {
 	}
 
 	results := make([]c14CliResult, reps)
-	one := func(cr1 *c14CliResult) {
+	one := func(cr1 *c14CliResult, x *c14Case, reqBody []byte) {
 		cr1.started = true
 		ctx := httptrace.WithClientTrace(context.Background(), &httptrace.ClientTrace{
 			Got1xxResponse: func(code int, h textproto.MIMEHeader) error {
@@ -865,7 +922,19 @@ func c14Exchange(vw *vx.W, x *c14Case) (st c14Stats, completed bool) {
 			return
 		}
 		cr1.setStage("read-body")
-		cr1.body, cr1.bodyErr = io.ReadAll(cr1.res.Body)
+		if x.ResRead > 0 {
+			buf := make([]byte, x.ResRead)
+			for cr1.bodyErr == nil {
+				var n int
+				n, cr1.bodyErr = cr1.res.Body.Read(buf)
+				cr1.body = append(cr1.body, buf[:n]...)
+			}
+			if cr1.bodyErr == io.EOF {
+				cr1.bodyErr = nil
+			}
+		} else {
+			cr1.body, cr1.bodyErr = io.ReadAll(cr1.res.Body)
+		}
 		cr1.trailer = cr1.res.Trailer.Clone()
 		cr1.setStage("close-body")
 		cr1.res.Body.Close()
@@ -882,7 +951,7 @@ func c14Exchange(vw *vx.W, x *c14Case) (st c14Stats, completed bool) {
 		cliDone = done
 		go func() {
 			defer close(done)
-			one(&results[i])
+			one(&results[i], c14At(x, i), reqBodies[i])
 		}()
 		if x.Early && i == 0 {
 			synctest.Wait() // the client has sent all it can without hearing from the server
@@ -954,7 +1023,7 @@ func c14Exchange(vw *vx.W, x *c14Case) (st c14Stats, completed bool) {
 			fail("C14/request/handler-calls", "the client got a response although the handler ran %d times only; %s", len(seenAll), ctxt())
 			return
 		}
-		c14Compare(fail, x, seenAll[i], cr1, reqHdr, reqTrl, reqBody, resHdr, resTrl, resBody, ctxt)
+		c14Compare(fail, c14At(x, i), seenAll[i], cr1, reqHdr, reqTrl, reqBodies[i], resHdr, resTrl, resBodies[i], ctxt)
 		if vw.Failed() {
 			return
 		}
